@@ -932,7 +932,9 @@ def run_geo(ctx: Ctx, mb: MB, n: int):
 ETYPES = ["translation", "rotation", "pose", "radian", "degree"]
 STAT_KEYS = ["Max", "Min", "Mean", "Median", "RMSE", "SSE", "STD"]
 MODES = {"none": dict(), "origin": dict(origin=True), "align": dict(align=True), "scale": dict(scale=True),
-         "align+scale": dict(align=True, scale=True), "align+origin": dict(align=True, origin=True)}
+         "align+scale": dict(align=True, scale=True), "align+origin": dict(align=True, origin=True),
+         "scale+origin": dict(scale=True, origin=True), "align+scale+origin": dict(align=True, scale=True, origin=True)}
+SPACING_RATIOS = [0.3, 0.4, 0.5, 0.8, 1.0, 1.25, 2.0, 2.5, 5.0, 10.0, 100.0]
 EPS64 = EPS["float64"]
 
 
@@ -953,7 +955,11 @@ def build_traj(case):
         keep = sorted(rnd.sample(idx_all, max(3, int(M * rnd.uniform(0.4, 0.9)))))
     else:
         keep = idx_all
-    jit = np.array([rnd.uniform(-0.4, 0.4) * diff for _ in range(M)]) if kind in ("jitter", "sub", "extra", "unmatched") else np.zeros(M)
+    # kind 18: jitter of either sign, always below the threshold AND below half the smallest spacing (0.35 dt), so the right
+    # partner is unambiguous for every spacing/diff ratio (0.3 … 100)
+    amp = 0.8 * min(0.95 * diff, 0.35 * dt)
+    sgn = {"after": (0.05, 1.0), "before": (-1.0, -0.05)}.get(kind, (-1.0, 1.0))
+    jit = np.array([rnd.uniform(*sgn) * amp for _ in range(M)]) if kind in ("jitter", "after", "before", "sub", "extra", "unmatched") else np.zeros(M)
     # estimate poses follow the reference poses of the same index
     ek = case["est"]
     if ek == "identical":
@@ -988,7 +994,12 @@ def build_traj(case):
         for j in range(len(ei)):
             if rnd.random() < 0.35 and 0 < j < len(ei) - 1:
                 # displaced by a multiple of the threshold: 0.8 (still matched), 1.2 / 1.5 / 3 (dropped), either direction
-                es[j] = st[ei[j]] + rnd.choice([-1, 1]) * rnd.choice([0.8, 1.2, 1.5, 3.0]) * diff
+                sg = rnd.choice([-1, 1])
+                disp = rnd.choice([0.8, 1.2, 1.5, 3.0]) * diff
+                gap = (st[ei[j] + 1] - st[ei[j]]) if sg > 0 else (st[ei[j]] - st[ei[j] - 1])
+                gap_e = (st[ei[j + 1]] - st[ei[j]]) if sg > 0 else (st[ei[j]] - st[ei[j - 1]])
+                disp = min(disp, 0.42 * gap, 0.42 * gap_e)     # stamps stay ascending, nearest reference stamp stays unique
+                es[j] = st[ei[j]] + sg * disp
                 drop.add(j)
     rp, ep = full[ri], est_full[ei]
     off = case["offset"]
@@ -1195,7 +1206,7 @@ def _check_traj(ctx: Ctx, case, mb: MB) -> None:
     # alignment transform (contract parameter)
     T = [0, 0, 0, 0, 0, 0, 1.0, 1.0]
     cond = 1.0
-    svd_mode = mode in ("align", "scale", "align+scale", "align+origin")
+    svd_mode = ("align" in mode) or ("scale" in mode)
     if svd_mode:
         try:
             T, cond = svd_T(ctx, case, B, ir, ie, "scale" in mode)
@@ -1283,7 +1294,7 @@ def _check_traj(ctx: Ctx, case, mb: MB) -> None:
         except Exception as e:
             ctx.fail(pub(case), f"ape-raises: ape raised on the transformed estimate: {excs(e)}")
     # oracle: jitter / offset do not matter once the association is the same
-    if B["rs"] is not None and case["stamps"] in ("jitter", "sub", "extra") and rnd.random() < 0.5:
+    if B["rs"] is not None and case["stamps"] in ("jitter", "after", "before", "sub", "extra") and rnd.random() < 0.5:
         try:
             es_exact = B["rs_o"][ir] if len(set(ir)) == len(ir) else None
             if es_exact is not None:
@@ -1308,7 +1319,7 @@ def check_rpe(ctx: Ctx, case, mb: MB, B, Tsvd, cond, ts, rnd) -> None:
               rtol=rk["rtol"], all=rk["all"], rpair=rk["rpair"])
     mode = rk["mode"]
     kw.update(MODES[mode])
-    svd_mode = mode in ("align", "scale", "align+scale")
+    svd_mode = ("align" in mode) or ("scale" in mode)
     T = [0, 0, 0, 0, 0, 0, 1.0, 1.0]
     if svd_mode:
         try:
@@ -1458,8 +1469,13 @@ def gen_traj_cases(ctx: Ctx, n: int):
     for i in range(n):
         c = rng.random()
         M = rng.randint(3, 8) if c < 0.3 else (rng.randint(9, 40) if c < 0.85 else rng.randint(41, 120 if ctx.quick else 200))
-        dt = rng.choice([0.033, 0.1, 1.0])
-        diff = 0.01 if dt >= 0.1 else dt / 12
+        if rng.random() < 0.5:
+            dt = rng.choice([0.033, 0.1, 1.0])
+            diff = 0.01 if dt >= 0.1 else dt / 12
+        else:   # kind 18: stamp spacing / max_diff from 0.3 to 100
+            diff = rng.choice([0.01, 0.01, 0.05, 0.8])
+            ratio = rng.choice(SPACING_RATIOS) if rng.random() < 0.6 else 10 ** rng.uniform(math.log10(0.3), 2)
+            dt = ratio * diff
         ts = rng.choice([1e-2, 1.0, 1.0, 50.0])
         assoc = rng.choice(["frame", "distance"])
         if assoc == "frame":
@@ -1470,10 +1486,10 @@ def gen_traj_cases(ctx: Ctx, n: int):
                       "tstep": ts * rng.choice([0.2, 1.0]), "rot": rng.choice([0.0, 1e-3, 0.1, 0.5, 1.5]),
                       "est": rng.choice(["noisy", "noisy", "transformed", "identical", "independent", "regimes"]),
                       "noise": rng.choice([1e-6, 1e-2, 0.3]),
-                      "stamps": rng.choice(["none", "same", "jitter", "jitter", "sub", "extra", "unmatched"]),
+                      "stamps": rng.choice(["none", "same", "jitter", "after", "before", "sub", "extra", "unmatched"]),
                       "none_shorter": rng.random() < 0.3, "t0": rng.choice([0.0, 100.0, 1311868163.87]), "dt": dt, "diff": diff,
                       "offset": rng.choice([0.0, 0.0, 0.5, -3.25]), "etype": rng.choice(ETYPES),
-                      "mode": rng.choice(["none", "origin", "align", "scale", "align+scale", "align", "align+scale", "align+origin"]),
+                      "mode": rng.choice(["none", "origin", "align", "scale", "align+scale", "align", "align+scale", "align+origin", "scale+origin", "align+scale+origin"]),
                       "otype": rng.choice(STAT_KEYS),
                       "rpe": {"etype": rng.choice(ETYPES), "mode": rng.choice(["none", "none", "origin", "align", "align+scale"]),
                               "associate": assoc, "delta": delta, "rtol": rng.choice([0.1, 0.3, 0.02]),
@@ -1568,6 +1584,21 @@ def corpus_traj():
                                stamps=["jitter", "same", "sub", "extra", "unmatched", "none"][i % 6],
                                rpe={"mode": ["none", "origin", "align", "align+scale"][i % 4], "associate": ["frame", "distance"][i % 2],
                                     "delta": [1.0, 2.0, 1.7, 0.9][i % 4], "all": bool(i % 2), "rpair": bool((i // 2) % 2)}))
+            i += 1
+    for r_i, ratio in enumerate(SPACING_RATIOS):           # kind 18: spacing / max_diff ladder x stamp kinds x offsets
+        for s_i, stamps in enumerate(["after", "before", "jitter", "sub", "extra", "unmatched"]):
+            if (r_i + s_i) % 2 and ratio > 2.5:
+                continue
+            diff = [0.01, 0.8, 0.05][(r_i + s_i) % 3]
+            c.append(traj_case(i, M=10 + (r_i * 7 + s_i * 3) % 17, dt=ratio * diff, diff=diff, stamps=stamps,
+                               est=["identical", "noisy"][(r_i + s_i) % 2], offset=[0.0, 0.5, -3.25][(r_i + 2 * s_i) % 3],
+                               t0=[100.0, 0.0, 1311868163.87][s_i % 3] if diff >= 0.05 or s_i % 3 < 2 else 100.0,
+                               etype=ETYPES[(r_i + s_i) % 5], mode=["none", "origin", "align"][s_i % 3],
+                               rpe={"associate": "frame", "delta": 1.0 + (s_i % 2), "all": bool(r_i % 2)}))
+            i += 1
+    for M_ in (3, 4, 7, 8):                                  # kind 16: lengths equal to the translation / quaternion / pose dimensions
+        for mode in ("align", "align+scale", "scale+origin", "align+scale+origin"):
+            c.append(traj_case(i, M=M_, mode=mode, etype=ETYPES[i % 5], stamps="jitter", rpe={"mode": "align+scale", "all": True}))
             i += 1
     for kw in (dict(M=3), dict(M=200, dt=0.033, diff=0.033 / 12), dict(tscale=1e-6, tstep=1e-6), dict(tscale=1e4, tstep=1e4),
                dict(t0=1311868163.87, offset=0.5, stamps="sub"), dict(offset=-3.25, stamps="extra"), dict(offset=1000.0, stamps="jitter"),
